@@ -331,6 +331,21 @@ def run(ctx: Ctx):
     ok3 = ctx.proof_stage("Properties/C13_recounts.v")
     if not ok3:
         ctx.violation("theorems of Properties/C13_recounts.v no longer check", {"broken": "Properties/C13_recounts.v"}, found_input=False)
+    # known finding KF-C13-oto-ties-relabel: with tied probabilities the single-best-link partition
+    # depends on the id labels (model-level: C13_oto_injective_relabel_ties_refuted); replayed on
+    # the real code on every run
+    from harness import c12_x
+    for backend in ("duckdb", "sqlite"):
+        try:
+            reproduced, details = c12_x.relabel_ties_witness(backend)
+        except Exception as e:  # the witness itself must run
+            reproduced, details = False, {"error": repr(e)}
+        ctx.cov["evaluations"] += 1
+        if reproduced:
+            ctx.violation("single-best-link partition changes under an injective relabelling of ids when match probabilities tie",
+                          {"backend": backend, "details": details}, {"kind": "oto_ties_relabel", "backend": backend})
+        else:
+            ctx.expect_known("KF-C13-oto-ties-relabel", False, f"relabelled witness gives the same partition on {backend}: {str(details)[:200]}")
     # identifier-handling layer (Model/Idents.v, Properties/C13_idents.v): theorems, translator
     # obligations and correspondence for the string-level functions that look at column names
     from harness import c13_idents
